@@ -264,26 +264,28 @@ func checkC05(c *Ctx) {
 	ikey := FuncKey(indexer)
 	// type switch on @type: TypeAsserts (comma-ok) on the value looked up under "@type"
 	hasString, hasArray := false, false
-	for _, b := range indexer.Blocks {
-		for _, ins := range b.Instrs {
-			ta, ok := ins.(*ssa.TypeAssert)
-			if !ok {
-				continue
-			}
-			lk, ok := ta.X.(*ssa.Lookup)
-			if !ok {
-				continue
-			}
-			if kc, ok := lk.Index.(*ssa.Const); !ok || kc.Value == nil || kc.Value.ExactString() != `"@type"` {
-				continue
-			}
-			switch u := ta.AssertedType.Underlying().(type) {
-			case *types.Basic:
-				if u.Kind() == types.String {
-					hasString = true
+	for _, ifn := range samePkgReach(p, indexer) {
+		for _, b := range ifn.Blocks {
+			for _, ins := range b.Instrs {
+				ta, ok := ins.(*ssa.TypeAssert)
+				if !ok {
+					continue
 				}
-			case *types.Slice:
-				hasArray = true
+				lk, ok := ta.X.(*ssa.Lookup)
+				if !ok {
+					continue
+				}
+				if kc, ok := lk.Index.(*ssa.Const); !ok || kc.Value == nil || kc.Value.ExactString() != `"@type"` {
+					continue
+				}
+				switch u := ta.AssertedType.Underlying().(type) {
+				case *types.Basic:
+					if u.Kind() == types.String {
+						hasString = true
+					}
+				case *types.Slice:
+					hasArray = true
+				}
 			}
 		}
 	}
@@ -321,14 +323,12 @@ func checkC05(c *Ctx) {
 	}
 	// no unchecked assertion of the document; array case present (shared with C17.Z5)
 	unchecked, sliceCase := 0, false
-	for _, ref := range nonDebugRefs(indexer.Params[0]) {
-		if ta, ok := ref.(*ssa.TypeAssert); ok {
-			if !ta.CommaOk {
-				unchecked++
-			}
-			if _, isSlice := ta.AssertedType.Underlying().(*types.Slice); isSlice {
-				sliceCase = true
-			}
+	for _, ta := range typeAssertsOnForwarded(indexer, indexer.Params[0], 0) {
+		if !ta.CommaOk {
+			unchecked++
+		}
+		if _, isSlice := ta.AssertedType.Underlying().(*types.Slice); isSlice {
+			sliceCase = true
 		}
 	}
 	r.Check(unchecked == 0 && sliceCase, "C05.N2", ikey+"#document-shapes", p.Pos(indexer.Pos()), "the document is accepted as {\"@graph\": [...]} and as an array", "the top-level document is not handled in both shapes json-gold produces")
